@@ -9,8 +9,9 @@ PRED_NAMES = ['portlist_bootstrap_irregular', 'portlist_conf_changed', 'conf_cha
               'comma_default_unsplit', 'emptied_list_saved', 'failed_listop_marks_pending', 'edit_while_detached']
 TOR_LINES = [e for e in LINE_ELEMS if e[0] not in '"\'']
 TOR_STRINGS = [e for e in STRINGS if e[0] not in '"\'']
-PORT_LINES = ['9050', '9150 IsolateDestAddr', '127.0.0.1:9999', 'unix:/run/tor/socks', '[::1]:9052'.replace('[::1]', 'localhost'),
-              '9051 IPv6Traffic PreferIPv6', '10.1.2.3:1080 NoIPv4Traffic']
+PORT_LINES = ['9050', '9150 IsolateDestAddr', '127.0.0.1:9999', 'unix:/run/tor/socks', 'localhost:9052',
+              '9051 IPv6Traffic PreferIPv6', '10.1.2.3:1080 NoIPv4Traffic', '0', 'auto', 'unix:/run/tor/s2 WorldWritable',
+              '0 IsolateDestAddr', 'auto IsolateSOCKSAuth']
 
 
 class P(drive_C10.P):
@@ -18,8 +19,8 @@ class P(drive_C10.P):
     check_mod = 'Check.C11'
     spec_mod = 'Check.C11_spec'
     extra_imports = 'From TxVerif Require Import Spec.CfgTypes Spec.TorStore Spec.CfgOracle Spec.C10 Spec.C11.\n'
-    quick_n = 1200
-    thorough_n = 20000
+    quick_n = 800
+    thorough_n = 14000
     shard = 120
     design_ref = '5/C11'
     rule = ('option tables of 3-9 rows over every declared type (incl. *PortLines groups and SocksPort as a plain '
@@ -91,7 +92,7 @@ class P(drive_C10.P):
             n = rng.choice([0, 1, 1, 2, 3]) if many_ok else rng.choice([0, 1])
             return rng.sample(TOR_LINES, n)
         if k == 'KPorts':
-            return [rng.choice(PORT_LINES)]
+            return [rng.choice([p for p in PORT_LINES if p != 'auto'])]
         raise ValueError(k)
 
     def _store11(self, rng, table, benign):
@@ -100,7 +101,12 @@ class P(drive_C10.P):
         defaults = [] if rng.random() < 0.7 else None
         for cn, k in opts:
             if cn == 'SocksPort' and k == 'KLine':
-                vals = rng.sample(PORT_LINES, rng.choice([0, 1, 1, 2]))
+                if rng.random() < 0.4:
+                    # entries that cannot be connected to, then (mostly) one that can
+                    vals = rng.sample(['0', 'auto', '0 IsolateDestAddr', 'auto IsolateSOCKSAuth'], rng.choice([1, 2])) \
+                        + rng.sample(['9050', '127.0.0.1:9999', 'unix:/run/tor/s2 WorldWritable', 'localhost:9052'], rng.choice([0, 1, 1, 2]))
+                else:
+                    vals = rng.sample(PORT_LINES, rng.choice([0, 1, 1, 2]))
             else:
                 vals = self._tor_values(rng, k)
             if k == 'KPorts' and not benign and rng.random() < 0.6:
@@ -125,13 +131,16 @@ class P(drive_C10.P):
                     defaults.append([cn, self._tor_values(rng, k)[0]])
         return store, defaults
 
-    def _event(self, rng, opts):
+    def _event(self, rng, opts, defaults=None):
         items = []
         for cn, k in rng.sample(opts, min(len(opts), rng.choice([1, 1, 2, 3]))):
             if cn == 'SocksPort' and k == 'KLine':
                 vals = rng.sample(PORT_LINES, rng.choice([0, 1, 1, 2, 3]))
             elif k == 'KPorts':
-                vals = rng.sample(PORT_LINES, rng.choice([0, 1, 2]))
+                # (a keyword-only line for a port list that has several config/defaults lines makes
+                #  config[k] the very list object of _defaults: outside the by-value model, not generated)
+                many_defaults = sum(1 for n, _ in (defaults or []) if n == cn) >= 2
+                vals = rng.sample(PORT_LINES, rng.choice([1, 2] if many_defaults else [0, 1, 2]))
             else:
                 vals = [v for v in self._tor_values(rng, k) if v]
             if not vals:
@@ -154,12 +163,15 @@ class P(drive_C10.P):
         has_socks = any(cn == 'SocksPort' and k in ('KLine', 'KPorts') for cn, k in opts)
         base = {'table': table, 'store': store, 'defaults': defaults}
         ops = []
+        if has_socks and rng.random() < 0.5:
+            ops.append(['socks'])
+            sim.step(ops[0])
         tries = 0
         while len(ops) < n_ops and tries < n_ops * 15:
             tries += 1
             r = rng.random()
             if r < 0.34:
-                op = self._event(rng, opts)
+                op = self._event(rng, opts, defaults)
             elif r < 0.46:
                 cn, k = rng.choice(opts)
                 v = self._value(rng, k)
